@@ -1,0 +1,16 @@
+//! Verification hook (compiled only with `--cfg libp2p_verif`): a constructor for
+//! [`Transport`](crate::Transport) with a caller-supplied [`Resolver`](crate::Resolver), so that
+//! an external harness can script DNS answers. The fields of `Transport` are private and the only
+//! public constructors (feature `tokio`) build a real hickory resolver.
+
+use std::sync::Arc;
+
+use parking_lot::Mutex;
+
+/// `Transport { inner, resolver }` with the given resolver.
+pub fn with_resolver<T, R>(inner: T, resolver: R) -> crate::Transport<T, R> {
+    crate::Transport {
+        inner: Arc::new(Mutex::new(inner)),
+        resolver,
+    }
+}
